@@ -40,7 +40,8 @@ CHECKS["C12"] = dict(
           "information kept; TERMINATION: for every acyclic chain the loop returns within (rank of the mother)+1 passes "
           "(each pass lowers the maximal rank of the substituted particles still present) — total correctness. Unbounded in "
           "chain size, multiplicities and depth. Tie: exhaustive small shapes x stable subsets x mapping orders + random "
-          "chains, exact Fraction arithmetic."),
+          "chains, exact Fraction arithmetic; visible_bf of every chain; chain objects that were flattened / rendered in another state and "
+          "then edited in place (the answers must be those of the chain as it is)."),
     design="DESIGN.md §5 C12",
     technique="Coq proof (loop invariant over a commutative-monoid valuation, Qc and nat instances; rank-based termination argument) + differential correspondence")
 
